@@ -481,9 +481,21 @@ func (o *readOutcome) prefixOf(t *readOutcome) string {
 	return triplePrefix(o.triples, t.triples)
 }
 
+// c15Workloads: the read-fault workloads plus one whose chunks overlap and nest in log time (chunk
+// ranges [10..50], [30..40], [20]): a time-ordered read loads later chunks by look-ahead while
+// messages of earlier ones are still pending, so a source error can hit a look-ahead load.
+func c15Workloads(nWork int) []*model.Content {
+	ws := rfWorkloads()
+	if nWork < len(ws) {
+		ws = ws[:nWork]
+	}
+	return append(ws, model.Fixed(model.Headers[0], model.Chn(model.C0), model.Msg(0, 10, 3, 0), model.Msg(0, 50, 3, 0), model.Msg(0, 30, 3, 0), model.Msg(0, 40, 3, 0), model.Msg(0, 20, 40, 0)))
+}
+
 func c15Body(nWork int, bound int) explore.Body {
+	ws := c15Workloads(nWork)
 	return func(x *explore.Ctx) *explore.Verdict {
-		f := chooseFile(x, nWork, rfModes, false)
+		f := chooseFileFrom(x, ws, len(ws), rfModes, false)
 		kind := readerKind(x.Choose("cfg", int(nReaderKinds)))
 		seekable := kind >= rkIndexedFile
 		if kind == rkUnindexed || kind == rkLexer || kind == rkLexerNoCallback {
